@@ -20,6 +20,15 @@ def items(ctx):
     return ctx.cache['items']
 
 
+def items0(ctx):
+    """item evaluator over the no-inlining opa (crate fns like maybe_reduce stay visible as calls)"""
+    if 'items0' not in ctx.cache:
+        it = Items(ctx)
+        it.opa = ctx.opa0
+        ctx.cache['items0'] = it
+    return ctx.cache['items0']
+
+
 def base_of(res, t, guard=0):
     """identity of a buffer-like value: strip mutation layers and follow phi terms to their initial value"""
     while t is not None and guard < 50:
@@ -314,11 +323,90 @@ PULL_OPT = {'next_chunk', 'next_chunk_x', 'next_id_and_value', 'next'}
 PULL_STREAM = {'values', 'ids_and_values'}
 
 
+def helper_pull_summary(ctx, name):
+    """summary of a crate fn that wraps pulls (`next_accepted(iter, fm, filter) -> Option<Out>`):
+      pulls      its result derives from elements pulled from the shared iterator
+      exhaust    every `None` it returns is returned on the exhaustion edge of a pull
+      survivors  every `Some(v)` it returns is returned on the true edge of each user predicate it evaluated on v's path
+    None if the fn is not of that shape."""
+    cache = ctx.cache.setdefault('helper_pull', {})
+    if name in cache:
+        return cache[name]
+    cache[name] = None      # recursion guard
+    b = ctx.facts.bodies.get(name)
+    summ = None
+    if b is not None and b.kind in ('Fn', 'AssocFn') and b.d.get('ret_ty', '').startswith('std::option::Option<') and name not in ctx.slots.tasks:
+        r = ctx.run(name)
+        I = items(ctx)
+        edges = list(r.ret_edges.values())
+        if edges:
+            pulls = False
+            exhaust = True
+            survivors = True
+            fbs = b.fn_bounds()
+            for (val, pc) in edges:
+                for alt in alternatives(val):
+                    if alt[0] == 'variant' and alt[4] == 'None':
+                        if not any(pt[0] == 'discr' and f == ('eq', 0) and _pullish(I, pt[1]) for pt, f in pc):
+                            exhaust = False
+                    elif alt[0] == 'variant' and alt[4] == 'Some':
+                        if _raw_pull_ids(I.normalize(alt)):
+                            pulls = True
+                        for pt, f in pc:
+                            if pt[0] == 'call' and tcallee(pt) == 'std::ops::Fn::call' and pt[2][0][0] == 'param':
+                                tp = None
+                                for l in b.arg_locals():
+                                    if b.local_name(l) == pt[2][0][1]:
+                                        tp = local_type_param(b, l)
+                                if fbs.get(tp, {}).get('output') == 'bool' and lin.fact_truth(f) is not True:
+                                    survivors = False
+                    else:
+                        # passes an inner pull's Option through unchanged
+                        if _pullish(I, alt):
+                            pulls = True
+                        else:
+                            exhaust = False
+            if pulls:
+                summ = {'exhaust': exhaust, 'survivors': survivors}
+    cache[name] = summ
+    return summ
+
+
+def _pullish(I, x):
+    x = I.normalize(x) if x is not None else x
+    if x is None or x[0] != 'call':
+        return False
+    if coniter_term_is(x, PULL_OPT) or buffered_next_term(x):
+        return True
+    if is_next_call(x):
+        names, root = I.spine(x[2][0])
+        return source_stream_root(I, root)
+    return False
+
+
+def _raw_pull_ids(t):
+    out = set()
+    for x in subterms(t):
+        if x[0] == 'call' and (coniter_term_is(x, PULL_OPT) or buffered_next_term(x)):
+            out.add(x)
+        elif x[0] == 'elem' and is_stream_root(x[1]):
+            out.add(x[1])
+    return out
+
+
 def is_pull_term(t):
-    """a term that denotes one pull from the shared iterator (an Option-returning pull call)"""
+    """a term that denotes one pull from the shared iterator: an Option-returning pull call, or a call of a crate
+    helper that wraps pulls and returns None only on exhaustion"""
     if t is None or t[0] != 'call':
         return False
-    return coniter_term_is(t, PULL_OPT) or buffered_next_term(t)
+    if coniter_term_is(t, PULL_OPT) or buffered_next_term(t):
+        return True
+    from .engine import current_ctx
+    ctx = current_ctx()
+    if ctx is not None and t[1] in ctx.facts.bodies:
+        sm = helper_pull_summary(ctx, t[1])
+        return bool(sm and sm['exhaust'])
+    return False
 
 
 def is_stream_root(t):
@@ -589,7 +677,8 @@ def c07_task(ctx):
                 n += 1
                 names, root = I.spine(I.normalize(c['args'][1]))
                 bad = [x for x in names if x not in ORDER_CARD_OK]
-                rooted = any(root == v for p in pull_ids(root) for v in value_terms(ctx, p)) or is_stream_root(root)
+                rooted = any(root == v for p in pull_ids(root) for v in value_terms(ctx, p)) or is_stream_root(root) or \
+                    (root[0] == 'field' and root[2] == 1 and root[3] == 0 and is_pull_term(root[1]))
                 out.inst(key0 + '/extend', not bad and rooted, 'extend over %s' % names, sample={'task': key_of(b), 'chain': names, 'root': t_str(root)[:80]})
                 if bad:
                     out.fail(key0 + '/extend', '%s extends its buffer through `%s`: elements can be lost or reordered' % (key_of(b), bad[0]), b.where(c['line']))
@@ -1182,30 +1271,27 @@ def composed_closure_sites(ctx):
         pb = F.bodies[hn]
         ucp = user_closure_params(pb)
         r = None
-        for cb in F.closures_in(pb, recursive=False):
+        for cb in F.closures_in(pb, recursive=True):
             caps = cb.d.get('captures', [])
-            # the aggregate that creates it
+            creator = F.bodies.get(cb.parent)
+            if creator is None:
+                continue
+            # the aggregate that creates it (in its direct parent, which may itself be a closure)
             agg = None
-            for blk in pb.blocks.values():
+            for blk in creator.blocks.values():
                 for st in blk['stmts']:
                     rv = st['rv']
                     if rv['r'] == 'agg' and rv.get('ak') == 'closure' and rv.get('def') == cb.name:
                         agg = (st, rv)
             if agg is None:
                 continue
-            r = r or ctx.run(hn)
-            clos = None
-            for x in _all_terms(r):
-                if x[0] == 'closure' and x[1] == cb.name:
-                    clos = x
-                    break
             info = []
             for i, cn in enumerate(caps):
                 op = agg[1]['ops'][i] if i < len(agg[1]['ops']) else None
                 l = place_local(op) if op else None
-                tp = local_type_param(pb, l) if l is not None else None
+                tp = local_type_param(creator, l) if l is not None else None
                 if tp in ucp:
-                    origin = clos[2][i] if clos is not None and i < len(clos[2]) else None
+                    origin = resolve_in_scope(ctx, pb, cb, ('param', 'cap:' + cn))
                     info.append((cn, tp, origin))
             if info:
                 outl.append((pb, cb, info))
@@ -1386,6 +1472,49 @@ def _recv(ctx, b, bb):
 DRAIN_METHODS = {'count', 'reduce', 'collect', 'for_each', 'fold', 'sum', 'last', 'extend'}
 
 
+def source_stream_root(I, root):
+    """a stream that ends exactly when the shared iterator is exhausted: values()/ids_and_values(), or a
+    `from_fn` generator whose closure returns a pull"""
+    if is_stream_root(root):
+        return True
+    g = I.generator_pull(root)
+    return g is not None and all(is_pull_term(a) for a in alternatives(g))
+
+
+def exhaustion_escapes(ctx, b, depth=0):
+    """return blocks of b reachable without crossing the `None` edge of a pull, a draining terminal over the source
+    stream, or a call of a crate fn that itself always observes exhaustion; plus the cut edges and drain blocks"""
+    I = items(ctx)
+    cfg = ctx.cfg(b)
+    r = ctx.run(b.name)
+    cut = []
+    for sbb, (d, tg) in r.switches.items():
+        if d[0] == 'discr':
+            x = d[1]
+            is_src = is_pull_term(x) or (x[0] == 'call' and is_next_call(x) and source_stream_root(I, I.spine(x[2][0])[1]))
+            if is_src:
+                cut.append((sbb, r.switch_target(sbb, 0)))
+    drains = set()
+    for bb, c in r.call_sites():
+        m = method(c['t'])
+        if m in DRAIN_METHODS and (decl(c['t']).startswith(ITER) or decl(c['t']).endswith('Extend::extend')):
+            ch = c['args'][1] if m == 'extend' and len(c['args']) > 1 else c['args'][0]
+            names, root = I.spine(I.normalize(ch))
+            if source_stream_root(I, root) and not any(x in ITER_CARD_CHANGING for x in names):
+                drains.add(bb)
+        elif c['t'].get('local') and callee_of(c['t']) in ctx.facts.bodies and depth < 3:
+            cal = ctx.facts.bodies[callee_of(c['t'])]
+            # a helper that receives the shared iterator and always runs it to exhaustion
+            takes_iter = any('ConcurrentIter' in cal.locals[l]['ty'] or cal.locals[l]['head'].startswith(('ref:param:I', 'param:I')) for l in cal.arg_locals())
+            if takes_iter and cal.name not in ctx.slots.tasks and ctx.cfg(cal).loops():
+                sub_esc, _, _ = exhaustion_escapes(ctx, cal, depth + 1)
+                if not sub_esc:
+                    drains.add(bb)
+    reach = cfg.reach(0, avoid=drains, cut_edges=cut)
+    esc = [x for x in cfg.returns if x in reach]
+    return esc, cut, drains
+
+
 def must_visit_tasks(ctx):
     ft = set(early_exit_tasks(ctx))
     return [t for t in ctx.slots.tasks if t not in ft]
@@ -1404,23 +1533,7 @@ def c05_visit(ctx):
         r = ctx.run(tn)
         key = 'C05-VISIT/' + key_of(b)
         # (a) exhaustion edges and draining terminals
-        cut = []
-        for sbb, (d, tg) in r.switches.items():
-            if d[0] == 'discr':
-                x = d[1]
-                is_src = is_pull_term(x) or (x[0] == 'call' and is_next_call(x) and is_stream_root(I.spine(x[2][0])[1]))
-                if is_src:
-                    cut.append((sbb, cfg.switch_edge(sbb, 0)))
-        drains = set()
-        for bb, c in r.call_sites():
-            m = method(c['t'])
-            if m in DRAIN_METHODS and (decl(c['t']).startswith(ITER) or decl(c['t']).endswith('Extend::extend')):
-                ch = c['args'][1] if m == 'extend' and len(c['args']) > 1 else c['args'][0]
-                names, root = I.spine(I.normalize(ch))
-                if is_stream_root(root) and not any(x in ITER_CARD_CHANGING for x in names):
-                    drains.add(bb)
-        reach = cfg.reach(0, avoid=drains, cut_edges=cut)
-        esc = [x for x in cfg.returns if x in reach]
+        esc, cut, drains = exhaustion_escapes(ctx, b)
         n += 1
         out.inst(key + '/exhaustion', not esc, '%d exhaustion edge(s), %d draining terminal(s)' % (len(cut), len(drains)),
                  sample={'task': key_of(b), 'exhaustion_edges': len(cut), 'draining_terminals': len(drains)})
@@ -1467,6 +1580,10 @@ def c05_visit(ctx):
     return out
 
 
+WHOLE_VIEWS = {'iter', 'into_iter', 'as_slice', 'as_mut_slice', 'deref', 'as_ref', 'borrow', 'into_con_iter', 'con_iter', 'into_con_iter_x',
+               'clone', 'to_vec', 'into_vec', 'into_boxed_slice', 'from', 'into', 'collect', 'make_contiguous', 'cloned', 'copied', 'from_iter'}
+
+
 @rule('C05-SOURCE', 'a by-value Iterator enters a pipeline only through the dependency\'s serialising concurrent-iterator constructors')
 def c05_source(ctx):
     out = RuleOut('C05-SOURCE')
@@ -1486,6 +1603,20 @@ def c05_source(ctx):
                 # when self is handed on unchanged it must itself be a concurrent iterator type (impl for ConIterOf*)
                 if a == P('self'):
                     ok = 'orx_concurrent_iter::' in b.locals[1]['ty']
+                # the whole collection must be handed over: from `self` only through whole-collection views
+                part = None
+                x = a
+                guard_n = 0
+                while x != P('self') and guard_n < 12:
+                    guard_n += 1
+                    if x[0] == 'call' and method_of_term(x) in WHOLE_VIEWS and x[2]:
+                        x = x[2][0]
+                    else:
+                        part = x
+                        break
+                if part is not None:
+                    ok = False
+                    out.fail(key + '/partial', '%s builds its source from %s, which is not a view of the whole collection (only `self`, iter()/into_iter()/as_slice()/From conversions are): elements can be left out' % (key_of(b), t_str(part)[:100]), b.where(c['line']))
                 out.inst(key, ok, t_str(a)[:100], sample={'source': key_of(b), 'iterator': t_str(a)[:120]})
                 if not ok:
                     out.fail(key, '%s builds the pipeline from %s, not from a concurrent-iterator constructor of the dependency: a by-value iterator could be advanced by several threads' % (key_of(b), t_str(a)[:120]), b.where(c['line']))
@@ -1709,113 +1840,187 @@ def check_accumulators(ctx, out, rid, tb, combine_ok, whole_terminal, init_ok):
     return n
 
 
+def binary_closure_param(tb):
+    red = [P(tb.local_name(l)) for l in tb.arg_locals() if local_type_param(tb, l) in user_closure_params(tb) and len(tb.fn_bounds()[local_type_param(tb, l)]['by_ref']) == 2]
+    return red[0] if red else None
+
+
+def check_reduce_body(ctx, out, tb, depth=0):
+    """accumulator threading of one reduce task / helper; recurses into crate helpers that do part of the work"""
+    I = items(ctx)
+    I0 = items0(ctx)
+    R = binary_closure_param(tb)
+
+    def chain_reduce_ok(x):
+        if x[0] == 'call' and is_iter_method(x, ('fold',)) and len(x[2]) == 3:
+            # fold(stream of pulls, init, |acc, chunk| combine(acc, reduce-of-chunk))
+            names, root = I.spine(x[2][0])
+            if [y for y in names if y not in ITER_ELEMENT_FAITHFUL] or not source_stream_root(I, root):
+                return 'the fold is not over the stream of pulled chunks'
+            if not init_ok(I.normalize(x[2][1])):
+                return 'the fold starts from %s' % t_str(x[2][1])[:60]
+            ACC = P('$acc')
+            got = I0.apply(x[2][2], [ACC, I.elem(x[2][0])])
+            for alt in alternatives(got):
+                if alt == ACC:
+                    continue
+                why = combine_ok(alt, ACC)
+                if why:
+                    return why
+            return None
+        if x[0] == 'call' and x[1] in ctx.facts.bodies and depth < 3:
+            cal = ctx.facts.bodies[x[1]]
+            Rc = binary_closure_param(cal)
+            idx = [i for i, l in enumerate(cal.arg_locals()) if P(cal.local_name(l)) == Rc]
+            if Rc is None or not idx or idx[0] >= len(x[2]) or x[2][idx[0]] != R:
+                return 'the helper %s is not handed the user\'s reduce operator' % key_of(cal)
+            check_reduce_body(ctx, out, cal, depth + 1)
+            return None
+        if not (x[0] == 'call' and is_iter_method(x, ('reduce',))):
+            return 'per-pull value %s is not an Iterator::reduce over the pulled elements' % t_str(x)[:100]
+        if x[2][1] != R:
+            return 'elements are combined with %s, not with the user\'s reduce operator' % t_str(x[2][1])[:80]
+        names, root = I.spine(x[2][0])
+        bad = [y for y in names if y not in ITER_ELEMENT_FAITHFUL]
+        if bad:
+            return 'the chunk is reduced through `%s`, which can drop or reorder elements' % bad[0]
+        if not (is_stream_root(root) or pull_ids(root)):
+            return 'the reduced chain is not rooted at the pulled elements'
+        return None
+
+    def combine_ok(alt, phi):
+        if alt[0] == 'call' and tcallee(alt).endswith('utils::maybe_reduce') and len(alt[2]) == 3:
+            op, a, b_ = alt[2]
+            if op != R:
+                return 'partial results are combined with %s, not the user\'s reduce operator' % t_str(op)[:80]
+            other = b_ if a == phi else (a if b_ == phi else None)
+            if other is None:
+                return 'the accumulator update %s does not take the previous accumulator as an operand: earlier chunks are forgotten' % t_str(alt)[:140]
+            return chain_reduce_ok(other)
+        if alt[0] == 'call' and tcallee(alt) == 'std::ops::Fn::call' and alt[2][0] == R and alt[2][1][0] == 'tuple' and len(alt[2][1][1]) == 2:
+            a, b_ = alt[2][1][1]
+            other = b_ if a == phi else (a if b_ == phi else None)
+            if other is None:
+                return 'the accumulator update %s does not take the previous accumulator as an operand' % t_str(alt)[:140]
+            if not from_current_pull(ctx, other):
+                return 'the value folded into the accumulator (%s) does not come from the current pull' % t_str(other)[:100]
+            return None
+        return 'unrecognised accumulator update %s' % t_str(alt)[:140]
+
+    def init_ok(init):
+        return init is not None and (init == none() or from_current_pull(ctx, init))
+
+    return check_accumulators(ctx, out, 'C03-THREAD', tb, combine_ok, chain_reduce_ok, init_ok)
+
+
 @rule('C03-THREAD', 'reduce tasks thread their accumulator: every update combines the previous value with the current pull\'s reduction')
 def c03_thread(ctx):
     out = RuleOut('C03-THREAD')
-    I = items(ctx)
     total = 0
     tasks = acc_tasks(ctx, False)
     for tb in tasks:
-        red = [P(tb.local_name(l)) for l in tb.arg_locals() if local_type_param(tb, l) in user_closure_params(tb) and len(tb.fn_bounds()[local_type_param(tb, l)]['by_ref']) == 2]
-        R = red[0] if red else None
-
-        def chain_reduce_ok(x):
-            if not (x[0] == 'call' and is_iter_method(x, ('reduce',))):
-                return 'per-pull value %s is not an Iterator::reduce over the pulled elements' % t_str(x)[:100]
-            if x[2][1] != R:
-                return 'elements are combined with %s, not with the user\'s reduce operator' % t_str(x[2][1])[:80]
-            names, root = I.spine(x[2][0])
-            bad = [y for y in names if y not in ITER_ELEMENT_FAITHFUL]
-            if bad:
-                return 'the chunk is reduced through `%s`, which can drop or reorder elements' % bad[0]
-            if not (is_stream_root(root) or pull_ids(root)):
-                return 'the reduced chain is not rooted at the pulled elements'
-            return None
-
-        def combine_ok(alt, phi):
-            if alt[0] == 'call' and tcallee(alt).endswith('utils::maybe_reduce') and len(alt[2]) == 3:
-                op, a, b_ = alt[2]
-                if op != R:
-                    return 'partial results are combined with %s, not the user\'s reduce operator' % t_str(op)[:80]
-                other = b_ if a == phi else (a if b_ == phi else None)
-                if other is None:
-                    return 'the accumulator update %s does not take the previous accumulator as an operand: earlier chunks are forgotten' % t_str(alt)[:140]
-                return chain_reduce_ok(other)
-            if alt[0] == 'call' and tcallee(alt) == 'std::ops::Fn::call' and alt[2][0] == R and alt[2][1][0] == 'tuple' and len(alt[2][1][1]) == 2:
-                a, b_ = alt[2][1][1]
-                other = b_ if a == phi else (a if b_ == phi else None)
-                if other is None:
-                    return 'the accumulator update %s does not take the previous accumulator as an operand' % t_str(alt)[:140]
-                if not from_current_pull(ctx, other):
-                    return 'the value folded into the accumulator (%s) does not come from the current pull' % t_str(other)[:100]
-                return None
-            return 'unrecognised accumulator update %s' % t_str(alt)[:140]
-
-        def init_ok(init):
-            return init is not None and (init == none() or from_current_pull(ctx, init))
-
-        total += check_accumulators(ctx, out, 'C03-THREAD', tb, combine_ok, chain_reduce_ok, init_ok)
+        total += check_reduce_body(ctx, out, tb)
     out.floor('reduce_tasks', len(tasks), 3 if not ctx.fixture else 0)
     out.floor('updates', total, 3 if not ctx.fixture else 0)
     return out
 
 
+def check_count_body(ctx, out, tb, depth=0):
+    I = items(ctx)
+    I0 = items0(ctx)
+
+    def chain_count_ok(x):
+        if x[0] == 'call' and is_iter_method(x, ('sum',)):
+            # sum of per-pull counts over the stream of pulled chunks
+            names, root = I.spine(x[2][0])
+            if [y for y in names if y not in ITER_ELEMENT_FAITHFUL] or not source_stream_root(I, root):
+                return 'the sum is not over the stream of pulled chunks'
+            e = I.elem(x[2][0])
+            for alt in alternatives(e):
+                why = chain_count_ok(alt)
+                if why:
+                    return why
+            return None
+        if x[0] == 'call' and is_iter_method(x, ('fold',)) and len(x[2]) == 3:
+            names, root = I.spine(x[2][0])
+            if [y for y in names if y not in ITER_ELEMENT_FAITHFUL] or not source_stream_root(I, root):
+                return 'the fold is not over the stream of pulled chunks'
+            if I.normalize(x[2][1]) != ('const', 0):
+                return 'the fold starts from %s' % t_str(x[2][1])[:60]
+            ACC = P('$acc')
+            got = I0.apply(x[2][2], [ACC, I.elem(x[2][0])])
+            for alt in alternatives(got):
+                if alt == ACC:
+                    continue
+                why = combine_ok(alt, ACC)
+                if why:
+                    return why
+            return None
+        if x[0] == 'call' and x[1] in ctx.facts.bodies and depth < 3 and ctx.facts.bodies[x[1]].d.get('ret_ty') == 'usize':
+            check_count_body(ctx, out, ctx.facts.bodies[x[1]], depth + 1)
+            return None
+        if not (x[0] == 'call' and is_iter_method(x, ('count',))):
+            return 'per-pull value %s is not an Iterator::count over the pulled elements' % t_str(x)[:100]
+        names, root = I.spine(x[2][0])
+        bad = [y for y in names if y not in ITER_ELEMENT_FAITHFUL]
+        if bad:
+            return 'the chunk is counted through `%s`, which can drop elements' % bad[0]
+        if not (is_stream_root(root) or pull_ids(root)):
+            return 'the counted chain is not rooted at the pulled elements'
+        return None
+
+    def combine_ok(alt, phi):
+        if alt[0] == 'bin' and alt[1] == 'Add':
+            other = alt[3] if alt[2] == phi else (alt[2] if alt[3] == phi else None)
+            if other is None:
+                return 'the counter update %s does not add to the previous count' % t_str(alt)[:140]
+            if other == ('const', 1):
+                return None
+            return chain_count_ok(other)
+        return 'unrecognised counter update %s' % t_str(alt)[:140]
+
+    def init_ok(init):
+        return init in (('const', 0), ('const', 1))
+
+    total = check_accumulators(ctx, out, 'C04-THREAD', tb, combine_ok, chain_count_ok, init_ok)
+    # `+= 1` / initial 1 only on a survivor edge: the counting block is reached from the true edge of the user filter (or from
+    # the Some edge of a helper that returns Some only for survivors) without stepping to another element in between
+    r = ctx.run(tb.name)
+    cfg = ctx.cfg(tb)
+    fbs = tb.fn_bounds()
+    accept_edges = []
+    for bb, c in r.call_sites():
+        u = is_user_closure_call(c['t'], tb)
+        if u and fbs.get(u, {}).get('output') == 'bool':
+            sw = switch_of_call(ctx, tb, bb)
+            if sw and sw[1] != sw[2]:
+                accept_edges.append((sw[0], sw[1]))
+    for sbb, (d, tg) in r.switches.items():
+        if d[0] == 'discr' and d[1][0] == 'call' and d[1][1] in ctx.facts.bodies:
+            sm = helper_pull_summary(ctx, d[1][1])
+            if sm and sm['survivors']:
+                accept_edges.append((sbb, r.switch_target(sbb, 1)))
+    steps = {x for x, t in tb.calls() if is_step_call(t) or (t.get('local') and helper_pull_summary(ctx, callee_of(t)))}
+    for bb, blk in tb.blocks.items():
+        for st in blk['stmts']:
+            rv = st['rv']
+            one_inc = rv['r'] == 'bin' and rv['op'].startswith('Add') and rv['b'].get('k') == 'int' and rv['b'].get('v') == '1'
+            one_init = rv['r'] == 'use' and rv['o'].get('k') == 'int' and rv['o'].get('v') == '1' and tb.locals[st['lhs']['l']]['ty'] == 'usize' and tb.locals[st['lhs']['l']].get('name')
+            if (one_inc or one_init) and bb in r.visited:
+                ok = any(cfg.edge_dominates(a, t_, bb) and bb in cfg.reach(t_, avoid=steps - {bb}) for (a, t_) in accept_edges)
+                out.inst('C04-THREAD/%s/survivor-%s' % (key_of(tb), 'inc' if one_inc else 'init'), ok, 'counting 1 on the survivor edge')
+                if not ok:
+                    out.fail('C04-THREAD/%s/survivor' % key_of(tb), '%s counts 1 on a path that is not guarded by the user filter accepting the element' % key_of(tb), tb.where(st.get('line')))
+    return total
+
+
 @rule('C04-THREAD', 'count tasks thread their counter: every update adds the current pull\'s count (or 1 per survivor) to the previous value')
 def c04_thread(ctx):
     out = RuleOut('C04-THREAD')
-    I = items(ctx)
     total = 0
     tasks = acc_tasks(ctx, True)
     for tb in tasks:
-        def chain_count_ok(x):
-            if not (x[0] == 'call' and is_iter_method(x, ('count',))):
-                return 'per-pull value %s is not an Iterator::count over the pulled elements' % t_str(x)[:100]
-            names, root = I.spine(x[2][0])
-            bad = [y for y in names if y not in ITER_ELEMENT_FAITHFUL]
-            if bad:
-                return 'the chunk is counted through `%s`, which can drop elements' % bad[0]
-            if not (is_stream_root(root) or pull_ids(root)):
-                return 'the counted chain is not rooted at the pulled elements'
-            return None
-
-        def combine_ok(alt, phi):
-            if alt[0] == 'bin' and alt[1] == 'Add':
-                other = alt[3] if alt[2] == phi else (alt[2] if alt[3] == phi else None)
-                if other is None:
-                    return 'the counter update %s does not add to the previous count' % t_str(alt)[:140]
-                if other == ('const', 1):
-                    return None
-                return chain_count_ok(other)
-            return 'unrecognised counter update %s' % t_str(alt)[:140]
-
-        def init_ok(init):
-            return init in (('const', 0), ('const', 1))
-
-        total += check_accumulators(ctx, out, 'C04-THREAD', tb, combine_ok, chain_count_ok, init_ok)
-        # `+= 1` / initial 1 only on the survivor edge: the store block is dominated by the true edge of the user filter
-        r = ctx.run(tb.name)
-        cfg = ctx.cfg(tb)
-        fbs = tb.fn_bounds()
-        filt_sw = []
-        for bb, c in r.call_sites():
-            u = is_user_closure_call(c['t'], tb)
-            if u and fbs.get(u, {}).get('output') == 'bool':
-                sw = switch_of_call(ctx, tb, bb)
-                if sw:
-                    filt_sw.append(sw + (cfg.innermost_loop(bb),))
-        for bb, blk in tb.blocks.items():
-            for st in blk['stmts']:
-                rv = st['rv']
-                one_inc = rv['r'] == 'bin' and rv['op'].startswith('Add') and rv['b'].get('k') == 'int' and rv['b'].get('v') == '1'
-                one_init = rv['r'] == 'use' and rv['o'].get('k') == 'int' and rv['o'].get('v') == '1' and tb.locals[st['lhs']['l']]['ty'] == 'usize' and tb.locals[st['lhs']['l']].get('name')
-                if (one_inc or one_init) and bb in r.visited:
-                    # the guarding filter evaluation must belong to the same element: the counting block is reached from
-                    # the filter's true edge without stepping to another element in between
-                    steps = {x for x, t in tb.calls() if is_step_call(t)}
-                    ok = any(sw[1] != sw[2] and cfg.edge_dominates(sw[0], sw[1], bb) and bb in cfg.reach(sw[1], avoid=steps - {bb}) for sw in filt_sw)
-                    out.inst('C04-THREAD/%s/survivor-%s' % (key_of(tb), 'inc' if one_inc else 'init'), ok, 'counting 1 on the survivor edge')
-                    if not ok:
-                        out.fail('C04-THREAD/%s/survivor' % key_of(tb), '%s counts 1 on a path that is not guarded by the user filter accepting the element' % key_of(tb), tb.where(st.get('line')))
+        total += check_count_body(ctx, out, tb)
     out.floor('count_tasks', len(tasks), 3 if not ctx.fixture else 0)
     out.floor('updates', total, 3 if not ctx.fixture else 0)
     return out
@@ -1844,6 +2049,10 @@ def c04_chain(ctx):
             if not d.startswith(ITER):
                 continue
             m = d[len(ITER):]
+            if m == 'sum':
+                e = I.elem(I.normalize(c['args'][0]))
+                if all(a[0] == 'call' and is_iter_method(a, ('count',)) for a in alternatives(e)):
+                    continue      # a sum of per-pull counts
             if m in ITER_SKIPPING or (m in ITER_EXHAUSTIVE and m != 'count') or m in ITER_CARD_CHANGING:
                 n += 1
                 out.inst('C04-CHAIN/%s/%s' % (key_of(b), m), False, m)
@@ -1859,4 +2068,26 @@ def c04_chain(ctx):
                 if not okf:
                     out.fail(key, '%s counts a chain whose last adaptor is not `filter(<user filter>)`: %s' % (key_of(b), names[:3]), b.where(c['line']))
     out.floor('count_chains', n, 3 if not ctx.fixture else 0)
+    return out
+
+
+@rule('C05-NOSKIP', 'skip_to_end (discarding the rest of the input) is called only by the early-exit tasks, after a match')
+def c05_noskip(ctx):
+    out = RuleOut('C05-NOSKIP')
+    F = ctx.facts
+    allowed = set(early_exit_tasks(ctx))
+    must = set(must_visit_tasks(ctx))
+    n = 0
+    for b in F.fn_bodies():
+        root = F.root_of(b)
+        for bb, t in b.calls():
+            if is_coniter_call(t, {'skip_to_end'}):
+                n += 1
+                key = 'C05-NOSKIP/%s' % key_of(root)
+                # an early-exit task is a task that returns an Option (a match) - decided by C10-SIGNAL / C02-FIRST
+                ok = root.name in allowed and root.d.get('ret_ty', '').startswith('std::option::Option<')
+                out.inst(key, ok, 'in %s' % key_of(b), sample={'site': key_of(b)})
+                if not ok:
+                    out.fail(key, '%s calls skip_to_end(): outside the find tasks this discards input that a must-visit terminal (collect, count, reduce, for_each) still has to process' % key_of(b), b.where(t.get('line')))
+    out.floor('skip_to_end_sites', n, 3 if not ctx.fixture else 0)
     return out
